@@ -147,8 +147,8 @@ def decide_pairs(idx):
 def decide_random(idx, seed0):
     rng = games.case_rng(seed0, PID, "RND", idx)
     ks = {q: rng.randint(1, 99) for q in PARAMS}
-    p = dict(seed=rng.choice([0, 1, 47, 2 ** 31, rng.randrange(2 ** 31)]), width=rng.randint(1, 6), length=rng.randint(1, 6),
-             max_reward=rng.choice([1, 6, 30, 100]), force_down=rng.random() < 0.5)
+    p = dict(seed=rng.choice([0, 1, 47, 2 ** 31, rng.randrange(2 ** 31), 2 ** 53 + 1, 9007199254740993, 10 ** 18 + 7, 1234567, 999132423]), width=rng.randint(1, 6), length=rng.randint(1, 6),
+             max_reward=rng.choice([1, 6, 30, 100, 60, 700]), force_down=rng.random() < 0.5)
     for q in PARAMS:
         p[q] = ks[q] / 100
     p["_k"] = ks
